@@ -82,9 +82,10 @@ class C20(Monitor):
     quick_cases = 2000
     rule = ("a live state reached by a random program prefix (possibly mid-episode, retracted, disabled, inch/relative), then "
             "StreamProcessor fed the rest of the program as a file (comments, N-numbers with checksums, blank / whitespace-only / "
-            "comment-only lines, @-commands, leading blanks, LF or CRLF, last line with or without terminator) while a twin "
-            "GcodeHandlers on a deep copy of the same live state receives the commands a live print would (comment, line number, "
-            "checksum, surrounding blanks stripped); per line: unchanged => byte-identical line, suppressed => None, commands => same "
+            "comment-only lines, @-commands, leading blanks and tabs, LF or CRLF, last line with or without terminator) while a twin "
+            "state + handlers pair that lived through the very same prefix receives the commands a live print would (comment, line "
+            "number, checksum, surrounding blanks stripped); half of the cuts are placed where a recovery is owed or deferred codes "
+            "are pending; the live print may go on for a few commands between the creation of the processor and its first line; per line: unchanged => byte-identical line, suppressed => None, commands => same "
             "command sequence joined and terminated by the file's EOL; afterwards the live state equals its snapshot; non-trivial = "
             "file in which an episode was open and a line was rewritten; distinct by digest")
     assumptions = ["commands are compared after tokenisation (the processor passes a normalised command string to the handlers)",
@@ -105,7 +106,9 @@ class C20(Monitor):
         eol = rnd.choice(["\n", "\n", "\r\n"])
         lines = []
         n = 0
-        for st in steps[cut:]:
+        starts = []          # starts[i]: index into lines of the first line made from step i
+        for st in steps:
+            starts.append(len(lines))
             if st[0] == "g":
                 cmd = st[1]
                 if rnd.random() < 0.05:
@@ -135,34 +138,71 @@ class C20(Monitor):
                 lines.append(rnd.choice(["", "   ", "; comment only", "  ; indented comment", "hello world", "ok"]) + eol)
         if lines and rnd.random() < 0.3:
             lines[-1] = lines[-1][:-len(eol)]
-        return dict(settings=settings, regions=regs, prefix=[s for s in steps[:cut] if s[0] in ("g", "at")], lines=lines, eol=eol)
+        # the live print goes on for a few commands between the creation of the processor and its first line
+        meanwhile = [s for s in steps[cut:cut + rnd.choice([0, 0, 1, 3, 6])] if s[0] in ("g", "at")] if rnd.random() < 0.4 else []
+        return dict(settings=settings, regions=regs, steps=[s if s[0] in ("g", "at") else None for s in steps], cut=cut, starts=starts,
+                    lines=lines, eol=eol, meanwhile=meanwhile, adaptive=rnd.random() < 0.5)
 
     def check_case(self, case):
         stats = collections.Counter()
         v = []
+        def drive(core, st):
+            if st[0] == "g":
+                core.gcode(st[1])
+            else:
+                core.at(st[1], st[2])
+        cut = case["cut"]
+        if case.get("adaptive"):
+            # prefer a cut where the live state carries something a copy can lose: a retraction whose recovery was swallowed
+            # inside a region and is still owed, or pending deferred commands (found by a scouting run of the same program)
+            scout = Core(case["regions"], case["settings"])
+            good = []
+            try:
+                for i, st in enumerate(case["steps"][:-2]):
+                    if st is not None:
+                        drive(scout, st)
+                    lr = scout.state.lastRetraction
+                    if i >= 1 and ((lr is not None and getattr(lr, "recoverExcluded", False)) or scout.state.pendingCommands):
+                        good.append(i + 1)
+            except Exception:  # noqa: B902
+                pass
+            if good:
+                cut = good[len(good) // 2]
+                stats["c20_cut_at_owed_recovery_or_pending"] += 1
+        lines = case["lines"][case["starts"][cut]:] if cut < len(case["starts"]) else []
         live = Core(case["regions"], case["settings"])
         try:
-            for st in case["prefix"]:
-                if st[0] == "g":
-                    live.gcode(st[1])
-                else:
-                    live.at(st[1], st[2])
+            for st in case["steps"][:cut]:
+                if st is not None:
+                    drive(live, st)
         except Exception as exc:  # noqa: B902
             stats["prefix_raised"] += 1
             return dict(violations=[], nontrivial=False, stats=stats, sets={}, sample=None)
-        before = deep(live.state)
         if live.state.excluding:
             stats["live_state_mid_episode"] += 1
-        # the twin is a clone of the LIVE handlers object (with whatever it keeps beside the state), not a freshly built one:
-        # "the same command sequence the live queuing hooks would send"
         live.arc.undo()
         sp = StreamProcessor(io.BytesIO(b""), live.handlers)
-        twin = copy.deepcopy(live.handlers)
+        # the twin is what the live print itself would be: a second state + handlers pair that lived through the very same prefix
+        # (not a copy of the live objects - copying is what the processor does, and a fault in it must not be mirrored here)
+        twin_core = Core(case["regions"], case["settings"])
+        twin_core.arc.undo()
+        for st in case["steps"][:cut]:
+            if st is not None:
+                drive(twin_core, st)
+        twin = twin_core.handlers
         comm = FakeComm(False)
+        # "all live states the processor is created from": the state at creation counts, whatever the print does afterwards
+        try:
+            for st in case.get("meanwhile") or []:
+                drive(live, st)
+                stats["c20_live_commands_between_creation_and_first_line"] += 1
+        except Exception:  # noqa: B902
+            stats["prefix_raised"] += 1
+        before = deep(live.state)
         eol = case["eol"]
         seen_eol = False
         episode = rewritten = False
-        for i, line in enumerate(case["lines"]):
+        for i, line in enumerate(lines):
             kind, payload = extract(line)
             if line.endswith(("\n", "\r")):
                 seen_eol = True
@@ -216,7 +256,7 @@ class C20(Monitor):
             v.append(dict(kind="live-state-modified", idx=-1, cmd=None, detail="the live state changed while the file was filtered",
                           mechanism=None))
         return dict(violations=v, nontrivial=episode and rewritten and not v, stats=stats, sets={},
-                    sample=dict(eol=repr(eol), lines=case["lines"][:10]))
+                    sample=dict(eol=repr(eol), cut=cut, lines=lines[:10]))
 
     def thresholds(self, tier):
         return {"c20_lines": 5000, "c20_rewritten": 300, "c20_suppressed": 300, "c20_lines_blank": 50, "c20_lines_at": 50,
